@@ -245,7 +245,8 @@ namespace nmtools::array
                     out_data_ptr[i] = identity;
                 }
                 auto inp_shape = nmtools::shape(*input_array_ptr);
-                auto reduction_axis = view.axis;
+                // accept any negative axis like the default evaluator does (-1 is the last axis, -dim the first)
+                const int reduction_axis = ((int)view.axis < 0) ? ((int)view.axis + (int)len(inp_shape)) : (int)view.axis;
                 auto reduction_kind = (reduction_axis == -1) || ((int)reduction_axis == (int)(len(inp_shape)-1)) ? ReductionKind::HORIZONTAL : ReductionKind::VERTICAL;
                 // "normalize" the out shape as if keepdims=True
                 auto out_shape_ = [&](){
